@@ -3,7 +3,7 @@
 import json, os, sys
 ROOT = os.path.dirname(os.path.dirname(os.path.abspath(__file__)))
 kf = json.load(open(os.path.join(ROOT, "known_findings.json")))
-byid = {f["id"]: f for f in kf["findings"]}
+byid = {(f["property"], f["id"]): f for f in kf["findings"]}
 for p in sys.argv[1:]:
     fp = os.path.join(ROOT, "corpus", p, "known_findings_proposed.json")
     if not os.path.exists(fp):
@@ -12,7 +12,7 @@ for p in sys.argv[1:]:
     items = d["findings"] if isinstance(d, dict) else d
     for f in items:
         f.setdefault("property", p)
-        byid[f["id"]] = f
+        byid[(f["property"], f["id"])] = f
         print("merged", p, f["id"])
 kf["findings"] = sorted(byid.values(), key=lambda f: (f["property"], f["id"]))
 json.dump(kf, open(os.path.join(ROOT, "known_findings.json"), "w"), indent=1)
